@@ -182,6 +182,20 @@ def check_parse(s):
                             % (where, w, wreq.params, wgot, diff))
         check_basic_getters(areq, exp, where + ' [asgi]')
         check_basic_getters(wreq, wexp, where + ' [wsgi]')
+        # ---- a request's mapping is its own: what an application does to it (middleware adding a default, a responder
+        # popping what it consumed) must not show in the mapping of the NEXT request with the same query string
+        for r in (areq, wreq):
+            try:
+                r.params['vf_injected'] = 'by-an-earlier-request'
+                for name in list(exp.values)[:1]:
+                    r.params.pop(name, None)
+            except TypeError:
+                pass  # an immutable mapping would be fine too
+        areq2, wreq2 = asgi_request(s, opts), wsgi_request(s, opts)
+        if areq2.params != got or wreq2.params != wgot:
+            raise Violation('params_leak_between_requests', '%s: after an earlier request\'s params were modified by the application, a new '
+                            'request with the same query string has asgi params=%r wsgi params=%r, expected %r / %r'
+                            % (where, areq2.params, wreq2.params, got, wgot))
     # ---- documented defaults: function keep_blank=False, csv=False; RequestOptions keep=True, csv=False
     dflt = falcon_uri.parse_query_string(s)
     if ref.compare(dflt, ref.parse(s, False, False)):
